@@ -58,6 +58,8 @@ class Explorer:
         self.fresh_counter = 0
         self.path_assumptions = []
         self.path_data = {}
+        self.known = {}
+        self._capture = None
 
     # -- solver access
     def check(self, *extra):
@@ -77,12 +79,34 @@ class Explorer:
         return r
 
     def is_sat(self, *extra):
-        return self.check(*extra) == z3.sat
+        return self.check(*[self.subst_known(e) for e in extra]) == z3.sat
 
     def model(self, *extra):
-        if self.check(*extra) != z3.sat:
+        if self.check(*[self.subst_known(e) for e in extra]) != z3.sat:
             return None
         return self.solver.model()
+
+    def capture(self, fn):
+        """Run a predicate whose result is the outcome of exactly one symbolic comparison and return that comparison
+        as a z3 Bool instead of forking on it."""
+        self._capture = []
+        try:
+            r = fn()
+            got = self._capture
+        finally:
+            self._capture = None
+        if isinstance(r, bool) and not got:
+            return z3.BoolVal(r)
+        if r is not True or len(got) != 1:
+            raise EngineError("capture: predicate is not a single comparison")
+        return got[0]
+
+    def subst_known(self, e):
+        """rewrite e with the `term == constant` facts implied by the path condition (sound under that condition)"""
+        if not self.known or isinstance(e, bool):
+            return e
+        pairs = [(t, z3.BitVecVal(v, t.size())) for t, v in self.known.values()]
+        return z3.simplify(z3.substitute(e, *pairs))
 
     def assume(self, e):
         if isinstance(e, bool):
@@ -109,6 +133,10 @@ class Explorer:
         """cond: z3 Bool -> python bool; forks when both sides are feasible."""
         if isinstance(cond, bool):
             return cond
+        if self._capture is not None:
+            self._capture.append(cond)
+            return True
+        raw = cond
         cond = z3.simplify(cond)
         if z3.is_true(cond):
             return True
@@ -132,11 +160,48 @@ class Explorer:
             self.decisions.append(d)
             self.pos += 1
         if d >= 2:
+            self._learn(raw, d == 3)
+            self._learn(cond, d == 3)
             return d == 3
         c = cond if d else z3.Not(cond)
         self.solver.add(c)
         self.path_assumptions.append(c)
+        self._learn(raw, bool(d))
+        self._learn(cond, bool(d))
         return bool(d)
+
+    # -- constant propagation: characters pinned by the path condition
+    def _learn(self, cond, truth):
+        """Record `term == constant` facts implied by a decided branch (used to canonicalise hash arguments)."""
+        if truth:
+            stack = [cond]
+            while stack:
+                c = stack.pop()
+                if z3.is_and(c):
+                    stack.extend(c.children())
+                elif z3.is_eq(c):
+                    l, r = c.children()
+                    if z3.is_bv_value(r) and not z3.is_bv_value(l):
+                        self.known[l.get_id()] = (l, r.as_long())
+                    elif z3.is_bv_value(l) and not z3.is_bv_value(r):
+                        self.known[r.get_id()] = (r, l.as_long())
+        elif z3.is_eq(cond):
+            l, r = cond.children()
+            if z3.is_bv_value(l):
+                l, r = r, l
+            if z3.is_bv_value(r) and not z3.is_bv_value(l) and l.size() == 1:
+                self.known[l.get_id()] = (l, 1 - r.as_long())
+            elif z3.is_bv_value(r) and l.get_id() in CHAR_DIGIT:
+                val = CHAR_DIGIT[l.get_id()][1]
+                if val.lo == 0 and val.hi == 1 and r.as_long() in (48, 49):
+                    self.known[l.get_id()] = (l, 97 - r.as_long())
+
+    def canon_char(self, c):
+        """the constant a symbolic character is pinned to on this path, else the character itself"""
+        if isinstance(c, int) or isinstance(c, Atom):
+            return c
+        k = self.known.get(c.get_id())
+        return c if k is None else k[1]
 
     def choice(self, k, label="choice"):
         """Environment choice among k alternatives (no solver involved): explores all k."""
@@ -194,6 +259,7 @@ class Explorer:
                 self.fresh_counter = 0
                 self.path_assumptions = []
                 self.path_data = {}
+                self.known = {}
                 self.solver.push()
                 for r in GLOBAL_RESETTERS + self.resetters:
                     r()
@@ -302,6 +368,8 @@ CHAR_DIGIT = {}
 
 def _digit_char(value, base):
     """BV8 character for the digit `value` (SInt with 0 <= value < base <= 16), registered in CHAR_DIGIT."""
+    if isinstance(value, int):
+        return ord("0123456789abcdef"[value])
     v8 = z3.Extract(CW - 1, 0, value.ext(max(value.w, CW)))
     if value.hi <= 9:
         c = v8 + 48
